@@ -211,6 +211,37 @@ class MapS(Shape):
         return f"Map({self.key!r}->{self.val!r})"
 
 
+class ViewS(Shape):
+    """itertools.islice(base, lo, hi) over a fixed list `base` (a Val held by reference): the value
+    is just the two bounds, so maps of views stay maps of integers."""
+
+    def __init__(self, base):
+        self.base = base
+
+    def sorts(self):
+        return [z3.IntSort(), z3.IntSort()]
+
+    def __eq__(self, o):
+        return isinstance(o, ViewS) and o.base is self.base
+
+    def __hash__(self):
+        return hash(("view", id(self.base)))
+
+    def __repr__(self):
+        return "View"
+
+
+def view_to_seq(v):
+    """the list of elements an islice view yields: base[lo:hi] with islice's clamping"""
+    base = v.shape.base
+    n = base.d[1]
+    lo, hi = v.d
+    lo2 = z3.If(lo > n, n, lo)
+    hi2 = z3.If(hi > n, n, hi)
+    hi2 = z3.If(hi2 >= lo2, hi2, lo2)
+    return seq_slice(base, z3.simplify(lo2), z3.simplify(hi2))
+
+
 class DictS(Shape):
     """dict with symbolic keys and observable insertion order: presence/value arrays as in MapS
     plus the sequence of keys in insertion order (distinct; presence <=> occurs in it)."""
@@ -361,6 +392,8 @@ def leaves(v: Val):
         return [v.d[0]] + list(v.d[1])
     if isinstance(s, DictS):
         return leaves(v.d[0]) + leaves(v.d[1])
+    if isinstance(s, ViewS):
+        return list(v.d)
     raise TypeError(s)
 
 
@@ -401,6 +434,8 @@ def _from(s, it) -> Val:
         m = _from(s.map, it)
         k = _from(s.keys, it)
         return Val(s, (m, k))
+    if isinstance(s, ViewS):
+        return Val(s, (next(it), next(it)))
     raise TypeError(s)
 
 
@@ -458,6 +493,8 @@ def wf(v: Val):
         return z3.BoolVal(True)
     if isinstance(s, DictS):
         return v.d[1].d[1] >= 0
+    if isinstance(s, ViewS):
+        return z3.And(v.d[0] >= 0, v.d[1] >= 0)
     raise TypeError(s)
 
 
@@ -521,6 +558,8 @@ def coerce(v: Val, shape: Shape) -> Val:
             return vseq_empty(shape.elem)
     if isinstance(shape, IntS) and isinstance(vs, BoolS):
         return Val(INT, z3.If(v.d, 1, 0))
+    if isinstance(vs, ViewS) and isinstance(shape, SeqS) and vs.base.shape == shape:
+        return view_to_seq(v)
     if isinstance(shape, MapS) and isinstance(vs, ConcS):
         from .objects import PyMap
         if isinstance(v.d, PyMap) and not v.d.items and v.d.default is None:
